@@ -203,6 +203,24 @@ Theorem C01_bam_closed_loop_delivers : forall prio sa dp pf p t0 A0 B0,
 Proof. exact Net21Bam.bam_closed_loop_delivers. Qed.
 Print Assumptions C01_bam_closed_loop_delivers.
 
+(* the same for EVERY group that travels as a broadcast: a PDU1 group sent to the global address (delivered under PGN dp.pf.00)
+   and a PDU2 group with any group extension (delivered under PGN dp.pf.ps) — DM1 (0xFECA) and the like *)
+Theorem C01_bam_closed_loop_delivers_pdu1_and_pdu2 : forall prio sa dp pf ps p t0 A0 B0,
+  0 <= prio < 8 -> 0 <= sa < 255 -> (0 <= pf < 240 /\ ps = 255) \/ (240 <= pf < 256 /\ 0 <= ps < 256) ->
+  0 <= dp < 2 -> 8 < len p <= 1785 -> 0 < t0 ->
+  0 < n_bam_iv A0 < tp21_T1 ->
+  n_snd A0 = [] /\ n_rcv A0 = [] /\ n_timers A0 = [] ->
+  n_snd B0 = [] /\ n_rcv B0 = [] /\ n_timers B0 = [] ->
+  let pv := Net21Bam.bam_pgn dp pf ps in
+  exists j, let s := Net21.steps j (Net21.net_send (Net21.net0 A0 B0 t0) dp pf ps prio sa p) in
+    Net21.qa s = [] /\ Net21.qb s = [] /\
+    n_snd (Net21.na s) = [] /\ n_rcv (Net21.na s) = [] /\ n_snd (Net21.nb s) = [] /\ n_rcv (Net21.nb s) = [] /\
+    Net21.evb s = deliveries B0 7 pv sa addr_GLOBAL p /\
+    Net21.wab s = tp21_bam sa prio pv (len p) (Z.of_nat (npk (length p)))
+                  :: map (fun k => tp21_dt sa addr_GLOBAL (dt_payload p (Z.of_nat k))) (seq 0 (npk (length p))).
+Proof. exact Net21Bam.bam_closed_loop_delivers_any. Qed.
+Print Assumptions C01_bam_closed_loop_delivers_pdu1_and_pdu2.
+
 From J1939P Require Net21Seq.
 
 (* T10.18 / T01.12: a HISTORY of transfers.  Any number of J1939-21 connection-mode transfers (any payloads of 9..1785 bytes, any
